@@ -181,7 +181,11 @@ def run_traces(ctx, ntr):
                   'negative-weight': 'b', 'not-unit-norm': 'e', 'not-adjacent-convex': 'd', 'index-range': 'c'}.get(why, 'a')
         ev = traces[idx]['ev'][d.get('l', 1) - 1]
         if why == 'beaten' and hdr['fitter'] == 'fit_interpolate' and (ev['s9'] <= 0 or min(c['s9'] for c in ev['comps']) <= 0):
-            why = 'beaten/non-positive-similarity-on-segment'
+            # the same class as seen spec -> impl: one key for one defect
+            ctx.violation(f"C08/d/fit_interpolate/{hdr['method']}/beaten/non-positive-similarity-on-segment",
+                          'another mixture of two adjacent RDMs scores higher (recorded fit call)',
+                          {'seed': meta[idx], 'hdr': hdr, 'diag': d, 'event': ev})
+            continue
         ctx.violation(f"C08/{clause}/trace/{hdr['fitter']}/{why}", 'recorded fit call is not explained by the specification',
                       {'seed': meta[idx], 'hdr': hdr, 'diag': d, 'event': traces[idx]['ev'][d.get('l', 1) - 1]})
     ctx.extra['recorded_fit_sessions_validated'] = len(traces)
@@ -208,8 +212,8 @@ def run(ctx):
         run_lin(ctx, 'lin_3', 3, 3, cat='Cat3', lingrid=2)
         run_lin(ctx, 'lin_4', 3, 4, cat='Cat4', lingrid=1)
     else:
-        run_fit(ctx, 'f_3', 3, 3, cat='Cat3', trainmax=3, rset='R12', thin_r=1, thin_1=7, thin_t=131, pats='Pat3', opt_every=10)
-        run_fit(ctx, 'f_4', 3, 4, cat='Cat4', trainmax=2, rset='R12', thin_r=13, thin_1=5, thin_t=67, pats='Pat4Few', opt_every=10)
+        run_fit(ctx, 'f_3', 3, 3, cat='Cat3', trainmax=3, rset='R12', thin_r=1, thin_1=5, thin_t=61, pats='Pat3', opt_every=10)
+        run_fit(ctx, 'f_4', 3, 4, cat='Cat4', trainmax=2, rset='R12', thin_r=13, thin_1=5, thin_t=61, pats='Pat4', opt_every=10)
         run_lin(ctx, 'lin_4', 3, 4, cat='Cat4K3', lingrid=1)
     ctx.exhaustive = thorough
-    run_traces(ctx, 600 if thorough else 120)
+    run_traces(ctx, 600 if thorough else 240)
